@@ -33,6 +33,19 @@ theorem reset_transcribed :
     (["self.execution_recursion_detector", "self.recursion_detector"].all
       (Gen.C16.resetAssigns.contains ·)) = true := by decide
 
+/-- the configuration of the source: the cap, `MAX_PARAM_SEARCHES`, and the `+= 1` / `-= 1` of
+`_avoid_recursions` where they stand -/
+def srcCfg : Cfg :=
+  { cap := Gen.C16.nodeCap, factor := Gen.C16.nodeCapBuiltinFactor,
+    maxSearches := Gen.C16.maxParamSearches, bracket := Gen.C16.dynBracket }
+
+/-- `_avoid_recursions` as it stands in the source: `inf.dynamic_params_depth += 1` inside
+`if allowed:` right before the `try` whose `finally` has the `-= 1`; nothing before the `with`,
+nothing on the blocked path. Moving the increment out of the branch (before the `with`) breaks this. -/
+theorem dyn_bracket_transcribed :
+    Gen.C16.dynBracket = ["allowed:inc", "finally:dec"] ∧ Balanced Gen.C16.dynBracket ∧
+    Gen.C16.searchCut = "i * dynamic_params_depth > MAX_PARAM_SEARCHES" := by decide
+
 /-- the four temporary switches are undone in `finally` blocks -/
 theorem switches_transcribed :
     Gen.C16.flowSwitch = ["finally: inf.flow_analysis_enabled = True"] ∧
@@ -168,14 +181,15 @@ theorem goto_set_invariant (l₁ l₂ s₁ s₂ : List Name) (hperm : l₁.Perm 
 
 /-! ## query boundaries -/
 
-/-- `query_boundary_inv` (`_partial`: it speaks about the recursion bookkeeping and the switches,
-not about `inferred_element_counts`, see the witness below): after ANY sequence of queries on one
-Script, each with ANY body and ANY outcome (normal, `ValueError`, an exception raised anywhere
-inside nested `try/finally` blocks), all switches have their defaults, and every query body starts
-with fresh recursion bookkeeping. -/
-theorem query_boundary_inv_partial (cap factor : Nat) (qs : List Act) (s : QState)
-    (h : s.switchesDefault) :
-    (session Gen.C16.resetAssigns cap factor s qs).1.switchesDefault ∧
+/-- `query_boundary_inv` (`_partial`: it speaks about the recursion bookkeeping, the switches, the
+statement stack and `dynamic_params_depth`, not about `inferred_element_counts`, see the witness
+below): after ANY sequence of queries on one Script, each with ANY body and ANY outcome (normal,
+`ValueError`, an exception raised anywhere inside nested `try/finally` blocks, dynamic parameter
+lookups that the recursion guard allows or blocks), all switches have their defaults,
+`dynamic_params_depth` is 0, `pushed_nodes` is empty, and every query body starts with fresh
+recursion bookkeeping. Stated over the bracket of the source (`srcCfg`). -/
+theorem query_boundary_inv_partial (qs : List Act) (s : QState) (h : s.switchesDefault) :
+    (session Gen.C16.resetAssigns srcCfg s qs).1.switchesDefault ∧
     ∀ s' : QState, (reset Gen.C16.resetAssigns s').bookkeepingFresh = true := by
   constructor
   · induction qs generalizing s with
@@ -184,20 +198,69 @@ theorem query_boundary_inv_partial (cap factor : Nat) (qs : List Act) (s : QStat
       simp only [session]
       apply ih
       unfold query
-      apply run_default
-      exact h
+      apply run_default srcCfg dyn_bracket_transcribed.2.1
+      exact reset_default _ s h
   · intro s'
     have hc : (Gen.C16.resetAssigns.contains "self.execution_recursion_detector" &&
         Gen.C16.resetAssigns.contains "self.recursion_detector") = true := by decide
     unfold reset
     simp only [hc, if_true]
 
-example : (QState.init).switchesDefault := ⟨rfl, rfl, rfl, rfl⟩
+example : (QState.init).switchesDefault := ⟨rfl, rfl, rfl, rfl, rfl⟩
+
+/-- in particular `dynamic_params_depth` is 0 at EVERY query boundary of a session (after every
+prefix of the queries), for any outcome of any body -/
+theorem dyn_depth_zero_at_every_boundary (qs : List Act) (k : Nat) :
+    (session Gen.C16.resetAssigns srcCfg QState.init (qs.take k)).1.dynamicParamsDepth = 0 :=
+  (query_boundary_inv_partial (qs.take k) QState.init ⟨rfl, rfl, rfl, rfl, rfl⟩).1.2.2.2.1
+
+/-- … so the call-site search that a query starts at top level (one lookup in progress: depth 1)
+looks at every call site up to `MAX_PARAM_SEARCHES`, whatever was asked before on the Script -/
+theorem top_level_search_sees_all_sites (qs : List Act) (sites : Nat)
+    (h : sites ≤ Gen.C16.maxParamSearches) (node : Nat) :
+    (query Gen.C16.resetAssigns srcCfg (session Gen.C16.resetAssigns srcCfg QState.init qs).1
+      (.dynParam node (.searchArgs sites))).seen = true :: List.replicate sites true := by
+  obtain ⟨_, _, _, hd, hp⟩ := (query_boundary_inv_partial qs QState.init ⟨rfl, rfl, rfl, rfl, rfl⟩).1
+  have hr : (reset Gen.C16.resetAssigns (session Gen.C16.resetAssigns srcCfg QState.init qs).1).pushed = [] := by
+    simp only [reset]; split <;> simp [hp]
+  have hdr : (reset Gen.C16.resetAssigns
+      (session Gen.C16.resetAssigns srcCfg QState.init qs).1).dynamicParamsDepth = 0 := by
+    simp only [reset]; exact hd
+  have hdelta : delta srcCfg.bracket "pre" = 0 ∧ delta srcCfg.bracket "allowed" = 1 := by decide
+  simp only [query, run, hr, hdr, hdelta.1, hdelta.2, List.contains_nil, Bool.false_eq_true, if_false]
+  have := searchLoop_depth_one Gen.C16.maxParamSearches sites 0 (by omega)
+  simpa [srcCfg] using this
 
 /-- a query that raises inside `find_references`' flow-off block inside a `predefine_names` block -/
-example : (run 300 100 QState.init (.predefine (.flowOff (.seq .execute .raise)))).raised = true ∧
-    (run 300 100 QState.init (.predefine (.flowOff (.seq .execute .raise)))).st.flowAnalysisEnabled = true ∧
-    (run 300 100 QState.init (.predefine (.flowOff (.seq .execute .raise)))).st.predefined = 0 := by
+example : (run srcCfg QState.init (.predefine (.flowOff (.seq .execute .raise)))).raised = true ∧
+    (run srcCfg QState.init (.predefine (.flowOff (.seq .execute .raise)))).st.flowAnalysisEnabled = true ∧
+    (run srcCfg QState.init (.predefine (.flowOff (.seq .execute .raise)))).st.predefined = 0 := by
+  decide
+
+/-- a self-recursive lookup: the inner lookup of the same function is blocked, the body of the
+outer one raises - the counter is back at 0 and the stack is empty -/
+example : (run srcCfg QState.init (.dynParam 7 (.seq (.dynParam 7 .skip) .raise))).raised = true ∧
+    (run srcCfg QState.init (.dynParam 7 (.seq (.dynParam 7 .skip) .raise))).seen = [true, false] ∧
+    (run srcCfg QState.init (.dynParam 7 (.seq (.dynParam 7 .skip) .raise))).st.dynamicParamsDepth = 0 ∧
+    (run srcCfg QState.init (.dynParam 7 (.seq (.dynParam 7 .skip) .raise))).st.pushed = [] := by
+  decide
+
+/-- the bracket with the increment moved before the `with` (decrement still in the `finally` of the
+`if allowed:` branch) -/
+def leakyCfg : Cfg := { srcCfg with bracket := ["pre:inc", "finally:dec"] }
+
+/-- `Balanced` is needed: with the increment outside the branch, one query whose lookup re-enters
+itself (`def walk(node): walk(node)`: the recursion guard blocks the inner lookup) leaves
+`dynamic_params_depth` at 1 for the rest of the Script's life, and the same later query - a
+parameter lookup of a function with 12 call sites - looks at 12 call sites on a fresh Script but
+only at 10 after that query. -/
+theorem dyn_bracket_unbalanced_witness :
+    ¬ Balanced leakyCfg.bracket ∧
+    (session Gen.C16.resetAssigns leakyCfg QState.init [.dynParam 0 (.dynParam 0 .skip)]).1.dynamicParamsDepth = 1 ∧
+    ((session Gen.C16.resetAssigns leakyCfg QState.init
+        [.dynParam 1 (.searchArgs 12)]).2.map (fun q => q.2.count true)) = [13] ∧
+    ((session Gen.C16.resetAssigns leakyCfg QState.init
+        [.dynParam 0 (.dynParam 0 .skip), .dynParam 1 (.searchArgs 12)]).2.map (fun q => q.2.count true)) = [1, 11] := by
   decide
 
 /-- what `reset_recursion_limitations` re-creates in the unchanged source -/
@@ -209,9 +272,8 @@ many inferences earlier queries on the same Script made in that context. With th
 source, the same query body is served the first time and refused after 300 earlier inferences
 (reproduced on the real code: known finding C16-cap-not-reset-per-query). -/
 theorem query_boundary_full_witness :
-    ((session unfixedResets Gen.C16.nodeCap Gen.C16.nodeCapBuiltinFactor QState.init
-        [.capped 0]).2.map (·.2)) = [[true]] ∧
-    ((session unfixedResets Gen.C16.nodeCap Gen.C16.nodeCapBuiltinFactor QState.init
+    ((session unfixedResets srcCfg QState.init [.capped 0]).2.map (·.2)) = [[true]] ∧
+    ((session unfixedResets srcCfg QState.init
         (List.replicate Gen.C16.nodeCap (.capped 0) ++ [.capped 0])).2.map (·.2)).getLast? = some [false] := by
   decide +kernel
 
